@@ -19,7 +19,7 @@ NA = [
 E1 = "E1 simrt: generated C + w2c2_base.h + futex/*.c under the simcore baton scheduler (simulated pthread objects/clock/allocator faults), clang ASan+UBSan, preemption at every instrumented load/store/atomic"
 CHECKS = {
  "C05": dict(engine="simrt", cat="exploration", tech="deterministic simulation: seeded operation histories with injected allocation failures, checked op-by-op against a byte-array reference model",
-   text="Seeded histories (20-120 ops) of every load/store flavour, 18 composite functions (store; store of another type or width; load at one address), size, grow (incl. limits and wrap-around deltas, injected realloc failure), copy/fill/init on the real generated code; after every operation results, page count and the whole memory are compared with a byte-array model. Exploration of the history/fault half of the property over one generated module family, not translation validation of arbitrary programs.",
+   text="Seeded histories (20-120 ops) of every load/store flavour, 18 composite functions (store; store of another type or width; load at one address), size, grow (incl. limits and wrap-around deltas, injected realloc failure), copy/fill/init on the real generated code; after every operation results, page count and the whole memory are compared with a byte-array model. On the shared-memory module a concurrent phase runs the accesses (confined to page 0) on one simulated thread and the grows/size queries on another, judged per thread in program order and on the final memory. Exploration of the history/fault half of the property over one generated module family, not translation validation of arbitrary programs.",
    note="only in-bounds accesses are generated; model is little-endian byte array; three generated modules (mem: non-shared 1..8 pages with passive and zero-tailed overlapping active segments, built four ways; atom: shared memory 1..6 pages; memnomax: no declared maximum, grown to the 65535/65536-page boundary); fresh heap memory is pre-filled with 0xBE so zeroing has to be done by the code under test; four builds: instrumented clang -O1 with array and gnu-ld data embedding, plain gcc -O2, plain clang -O3", ref="5/C05"),
  "C16": dict(engine="simrt", cat="exploration", tech="deterministic simulation: seeded schedules (random walk + PCT) over parked real threads, linearizability / sequential-consistency check of atomic-op histories per 8-byte word and jointly over all touched words; happens-before data-race detector over the accessed cells (little-endian build); x86-TSO store-buffer model for accesses weaker than seq_cst",
    text="2-4 simulated threads of one shared-memory instance family execute seeded mixes of all 63 atomic opcodes (two static offsets, mixed widths on hot words, operands with bits above the access width); every history is checked for linearizability against a byte-array register specification including the final memory. Runs on the native little-endian build (builtins, indivisible steps; two modules: shared memory defined / imported), on the forced big-endian build whose RMWs are mutex-based sequences that really interleave, and on the big-endian build with the header's portable byte-swap macros.",
@@ -44,7 +44,7 @@ CHECKS.update({
    text="The translator's worker pool runs under the seeded scheduler for every sampled (module, option combination, output path): termination, exit status, the exact output file-name set and byte-identity of all files with the canonical '-t 1' unpreempted run decide schedule/thread-count independence. Because option equivalence of behaviour is not a schedule property, a stratified sample of canonical outputs is additionally compiled file-by-file and spec-suite modules are built and executed under 7 option variants (pretty, -f, -g, -m, gnu-ld, threads) with their assert transcripts compared to the default build.",
    note="interleavings are sequentially consistent; behaviour equivalence across options is sampled (not simulated): 6 modules quick / 80 thorough, stratified by data-segment shape; build-configuration variants (no pthreads, bundled getopt/libgen) must emit identical files: 10 modules quick, the whole corpus thorough", ref="5/C09"),
  "C10": dict(engine="simxl", cat="fault_enumeration", tech="deterministic simulation with torn-input fault enumeration: every run serves only the first k bytes of a valid module (k sampled, plus every section boundary; exhaustive for small modules in the thorough tier) under a seeded option/schedule swarm, ASan/UBSan-memory as oracle",
-   text="Valid modules (96 seeded synthetic ones with wild UTF-8/punctuation/long names, many locals, deep nesting, duplicated bodies + 48 spec-suite modules + coremark) and their proper prefixes are translated under seeded option combinations and worker schedules, and every one of the 874 valid spec-suite modules (committed list with content hashes, not 'what the translator accepts today') is translated once per run; the run must exit 0 (valid) or exit 0 / non-zero with a diagnostic (prefix), never die on a signal, sanitizer report, assertion or hang.",
+   text="Valid modules (96 seeded synthetic ones with wild UTF-8/punctuation/long names, many locals, deep nesting, duplicated bodies + 48 spec-suite modules + coremark) and their proper prefixes are translated under seeded option combinations and worker schedules, and every one of the 874 valid spec-suite modules (committed list with content hashes, not 'what the translator accepts today') is translated once per run; the run must exit 0 (valid) or exit 0 / non-zero with a diagnostic (prefix), never die on a signal, sanitizer report, assertion or hang. A thread stack size the translator asks for is honoured by the simulated pthread_create (times 8 for instrumented frames).",
    note="allocation failures are not injected (outside the statement); fopen/fclose failures, short freads and worker-thread creation failures are injected into part of the untruncated runs, under which only memory safety and termination are judged; sanitizer set = address + null/bounds/alignment/object-size/nonnull (memory operations), not arithmetic UB", ref="5/C10"),
  "C20": dict(engine="simxl", cat="exploration", tech="deterministic simulation: invariant monitor at every mutating libc call plus before/after diff of a real scratch tree, across seeded options, path shapes, near-miss decoy files, worker schedules and fopen/fclose faults",
    text="Each run builds a scratch tree with the input (sometimes inside the output directory), a reference module and 4-13 decoy files whose names nearly match the implementation-file pattern, inside and outside the output directory; the translator may create/overwrite only out.c, its header, [sd]<10 digits>.c and 'datasegments' in the output directory and, with -c, delete only names matching the pattern - checked at the call and by diffing the tree, also after injected fopen/fclose errors. Output directories include names that are glob patterns with sibling directories they match and one-character names; a quarter of the runs use the translator built with the project's own dirname/basename/getopt/strdup (hosts without libgen/getopt).",
@@ -58,13 +58,13 @@ CHECKS.update({
    text="Histories of path_open/fd_write/fd_pwrite/fd_read/fd_pread/fd_seek/fd_tell/fd_filestat_get/fd_close through the exact C ABI generated code uses, in both ABI name spaces; after every operation errno, counts, 64-bit offsets, filestat fields, delivered bytes and the native file position must equal those of the corresponding POSIX call on the mirror, and the trees must be equal at the end. Under an injected fault the operation may report the fault or the short count, never other data or a moved position after positional I/O. Build variants: default, bundled strndup / no getentropy, and no <sys/uio.h> (the host's own readv/writev over read()/write(), with faults injected per segment and a prefix oracle). Concurrent phases: 2-3 simulated tasks are inside the host at the same time, each reading/writing/seeking its own file (interleaved at every instrumented access and libc call), each call judged against the same call on the mirror.",
    note="reference is the Linux kernel (pwritev/preadv/lseek/fstat); O_APPEND+pwrite, IOV_MAX and error precedence are excluded as POSIX-ambiguous", ref="5/C12"),
  "C13": dict(engine="simwasi", cat="exploration", tech="deterministic simulation: seeded descriptor-churn histories (open/close storms, double close, closed and never-issued numbers in every implemented call of both ABIs) with EMFILE injection, descriptor-table model + host-call log + ASan as oracles",
-   text="A model of the descriptor table (live set, pre-opens, stdio incl. closed standard streams; registration failures through a failing path copy) decides: path_open never returns a live number, dead numbers give EBADF in all 23 implemented descriptor-taking calls and reach no host call, pre-opens report their registered path, descriptors 1/2/0 reach host fds 1/2/0; AddressSanitizer reports (double free, use after free of the descriptor path) are violations of this property.",
+   text="A model of the descriptor table (live set, pre-opens, stdio incl. closed standard streams; registration failures through a failing path copy or a failing growth of the table) decides: path_open never returns a live number, dead numbers give EBADF in all 23 implemented descriptor-taking calls and reach no host call, pre-opens report their registered path, descriptors 1/2/0 reach host fds 1/2/0; AddressSanitizer reports (double free, use after free of the descriptor path) are violations of this property.",
    note="unimplemented (ENOSYS) calls are not swept; descriptor 2 is never closed (it carries the sanitizer output)", ref="5/C13"),
  "C14": dict(engine="simwasi", cat="exploration", tech="deterministic simulation: seeded path/readdir histories with DT_UNKNOWN buggify and opendir/readdir errors; tree-effect oracle against the mirror tree after every operation, host-path seam check, readdir listing protocol rules",
    text="Create/remove directory, unlink, rename, symlink, readlink, stat with relative/absolute/empty/over-long (around and beyond PATH_MAX) non-NUL-terminated guest paths: errno and the whole tree must equal the mirror after each call, rejected paths change nothing and reach no host call, ASan guards the PATH_MAX buffers. fd_readdir listings with buffers from 24 bytes must deliver every entry exactly once with correct d_next/d_ino/d_namlen/d_type, resume from any returned cookie and restart at cookie 0. Concurrent phases: 2-3 simulated tasks create/rename/link/remove their own names below one directory at the same time.",
    note="paths whose resolved length is within 2 bytes below PATH_MAX are not generated; directory descriptors opened before a rename/rmdir are not judged afterwards", ref="5/C14"),
  "C15": dict(engine="simwasi", cat="exploration", tech="deterministic simulation: simulated clock and entropy source, recorded exit, seeded scheduler over concurrent thread-spawn callers with thread-create failures",
-   text="args/environ vectors of arbitrary bytes at unaligned addresses, also ending exactly at the end of memory, must be reproduced exactly; clock_time_get must store sec*1e9+nsec of the simulated clock (seconds up to 2^33, nsec up to 999999999), stay monotonic, reject unknown ids with EINVAL and translate injected errors; random_get must succeed for 0..2^20 bytes and leave exactly the supplied entropy in exactly the requested range; proc_exit must end the process with the status and no later operation; 1-4 simulated threads spawn concurrently: distinct positive ids, wasi_thread_start once per spawn with that id on the shared memory, negative result without the export or on injected create failure; spawns are mixed with spawns from two further in-process modules (own wasi_thread_start / none), each of which must get its own module's behaviour.",
+   text="args/environ vectors of arbitrary bytes at unaligned addresses, also ending exactly at the end of memory, must be reproduced exactly; clock_time_get must store sec*1e9+nsec of the simulated clock (seconds up to 2^33, nsec up to 999999999), stay monotonic, reject unknown ids with EINVAL and translate injected errors; random_get must succeed for 0..2^20 bytes and leave exactly the supplied entropy in exactly the requested range (getentropy and getrandom are seams: ENOSYS, EINTR, short counts above 256 bytes); proc_exit must end the process with the status and no later operation; 1-4 simulated threads spawn concurrently: distinct positive ids, wasi_thread_start once per spawn with that id on the shared memory, negative result without the export or on injected create failure; spawns are mixed with spawns from two further in-process modules (own wasi_thread_start / none), each of which must get its own module's behaviour.",
    note="realtime clock jumps are not injected; thread-spawn schedules are sequentially consistent interleavings", ref="5/C15"),
 })
 
